@@ -311,7 +311,10 @@ func Seeded(w io.Writer, seed int64, kind string, n int) error {
 				}
 			}
 			tp := rng.Intn(3) == 0
-			c.Token = []string{Taint, Taint, `"<q7>&'`, `&<q7>`, `'"><q7>`, `<<q7>>`}[rng.Intn(6)]
+			c.Token = []string{Taint, Taint, `"<q7>&'`, `&<q7>`, `'"><q7>`, `<<q7>>`, `<q7>&nbsp;`}[rng.Intn(7)]
+			if strings.Contains(c.Token, "nbsp") {
+				tp = false // (the page-name escaping of this token is not undone when pages are paired)
+			}
 			if tp && rng.Intn(2) == 0 { // pointers of individuals as well (the diff report prints them)
 				for k := range base.People {
 					base.People[k].P = fmt.Sprintf("I%d", k+1)
